@@ -17,7 +17,7 @@ Cell width `w` arbitrary (the IR corollaries need `0 < w`, as C01 does).
 Proofs: `Hpbf/Proofs/C05.lean` (and `Hpbf/Proofs/C07.lean` for 6).
 -/
 import Hpbf.Proofs.C05
-import Hpbf.Proofs.C07
+import Hpbf.Props.C07
 import Hpbf.Props.C04
 import Hpbf.Props.C01
 
@@ -149,6 +149,261 @@ example : Cert.sameCfg (w := 8)
     ⟨.nil, [], { tape := ⟨[(1, 0#8), (0, 5#8)]⟩, ptr := 0, env := env0, trace := [Ev.out 1] }⟩
     ⟨.nil, [], { tape := ⟨[(0, 5#8), (0, 7#8)]⟩, ptr := 0, env := env0, trace := [] }⟩ = true := by decide
 
+/-! ### 5. Consequences for the proved back ends -/
+
+/-- The canonical run of `p` in `env` never returns. -/
+def BfDiverges (w : Nat) (p : Prog) (env : Env) : Prop :=
+  ∀ f, ∃ c' : Bf.Config w, Bf.run f p env = .outOfFuel c'
+
+theorem cert_gives_BfDiverges {fuel : Nat} {p : Prog} {env : Env} {c : Bf.Config w} {per : Nat}
+    (h : Cert.certify (w := w) fuel p env = .diverges c per) : BfDiverges w p env :=
+  cert_diverges_sound h
+
+def isDiverges : Cert.Verdict w → Bool
+  | .diverges _ _ => true
+  | _ => false
+
+theorem diverges_of_isDiverges {fuel : Nat} {p : Prog} {env : Env}
+    (h : isDiverges (Cert.certify (w := w) fuel p env) = true) : BfDiverges w p env := by
+  cases hc : Cert.certify (w := w) fuel p env with
+  | diverges c per => exact cert_gives_BfDiverges hc
+  | halts k s => rw [hc] at h; cases h
+  | unknown c => rw [hc] at h; cases h
+
+section Inplace
+variable (code : Array Kind) (p : Prog) (h : Bf.tree code.toList = some p) (env : Env)
+include h
+
+/-- A canonically divergent program never returns from the in-place interpreter: neither mode, no
+budget, no number of steps gives "finished" (at the end of the text or at a failing I/O operation). -/
+theorem inplace_never_returns (hdiv : BfDiverges w p env) :
+    ∀ (limited : Bool) (b f' : Nat) (c : Inplace.Cfg w),
+      Inplace.run code limited b f' env ≠ .finished c ∧ Inplace.run code limited b f' env ≠ .stopped c := by
+  intro limited b f' c
+  constructor
+  · intro hr
+    have : ∃ f, Bf.run f p env = .done c.st := by
+      cases limited with
+      | false => exact C04.inplace_backward code p h env b f' c hr
+      | true =>
+        have := C04.inplace_limited (w := w) code p h env b f'
+        rw [hr] at this; exact this
+    obtain ⟨f, hf⟩ := this
+    obtain ⟨c', hc'⟩ := hdiv f
+    rw [hf] at hc'; cases hc'
+  · intro hr
+    have : ∃ f, Bf.run f p env = .stopped c.st := by
+      cases limited with
+      | false => exact C04.inplace_backward_stopped code p h env b f' c hr
+      | true =>
+        have := C04.inplace_limited (w := w) code p h env b f'
+        rw [hr] at this; exact this
+    obtain ⟨f, hf⟩ := this
+    obtain ⟨c', hc'⟩ := hdiv f
+    rw [hf] at hc'; cases hc'
+
+/-- Unlimited mode: after any number of steps the in-place interpreter is still running. -/
+theorem inplace_runs_forever (hdiv : BfDiverges w p env) :
+    ∀ (b f' : Nat), ∃ c : Inplace.Cfg w, Inplace.run code false b f' env = .outOfFuel c := by
+  intro b f'
+  have hn := inplace_never_returns code p h env hdiv false b f'
+  cases hr : Inplace.run (w := w) code false b f' env with
+  | outOfFuel c => exact ⟨c, rfl⟩
+  | finished c => exact ((hn c).1 hr).elim
+  | stopped c => exact ((hn c).2 hr).elim
+  | interrupted c => exact (C04.inplace_never_interrupted_unlimited code p h env b f' c hr).elim
+  | notOpened pos c => exact (C04.inplace_never_notOpened code p h env false b f' pos c hr).elim
+
+/-- Limited mode: the call comes back, and what it reports is "budget exhausted". -/
+theorem inplace_limited_interrupted (hdiv : BfDiverges w p env) :
+    ∀ (b f' : Nat), (b + 1) * (code.size + 2) ≤ f' →
+      ∃ c : Inplace.Cfg w, Inplace.run code true b f' env = .interrupted c := by
+  intro b f' hf
+  have hn := inplace_never_returns code p h env hdiv true b f'
+  cases hr : Inplace.run (w := w) code true b f' env with
+  | outOfFuel c => exact (C04.inplace_limited_terminates code p h env b f' hf c hr).elim
+  | finished c => exact ((hn c).1 hr).elim
+  | stopped c => exact ((hn c).2 hr).elim
+  | interrupted c => exact ⟨c, rfl⟩
+  | notOpened pos c => exact (C04.inplace_never_notOpened code p h env true b f' pos c hr).elim
+
+/-- A canonically terminating program terminates in the in-place interpreter, in the same state
+(unlimited mode; for limited mode with enough budget see `C04.inplace_limited_enough`). -/
+theorem inplace_terminates (b : Nat) :
+    (∀ (f : Nat) (s : State w), Bf.run f p env = .done s →
+      ∃ f' c, Inplace.run code false b f' env = .finished c ∧ c.st = s) ∧
+    (∀ (f : Nat) (s : State w), Bf.run f p env = .stopped s →
+      ∃ f' c, Inplace.run code false b f' env = .stopped c ∧ c.st = s) :=
+  ⟨C04.inplace_forward code p h env b, C04.inplace_forward_stopped code p h env b⟩
+
+/-- Everything a divergent program outputs is output by the in-place interpreter, in order and with
+nothing extra: both run forever, every event sequence reached by the canonical run is reached by the
+interpreter, and the interpreter reaches no other. -/
+theorem inplace_divergent_output (hdiv : BfDiverges w p env) (b : Nat) :
+    (∀ f, ∃ f' c c', Bf.run (w := w) f p env = .outOfFuel c ∧
+      Inplace.run (w := w) code false b f' env = .outOfFuel c' ∧ c'.st.trace = c.st.trace) ∧
+    (∀ f', ∃ f c c', Inplace.run (w := w) code false b f' env = .outOfFuel c' ∧
+      Bf.run (w := w) f p env = .outOfFuel c ∧ c'.st.trace = c.st.trace) := by
+  constructor
+  · intro f
+    obtain ⟨c, hc⟩ := hdiv f
+    obtain ⟨f', hf'⟩ := C04.inplace_prefix_conv (w := w) code p h env b f
+    obtain ⟨c', hc'⟩ := inplace_runs_forever code p h env hdiv b f'
+    rw [hc, hc'] at hf'
+    exact ⟨f', c, c', hc, hc', hf'.symm⟩
+  · intro f'
+    obtain ⟨c', hc'⟩ := inplace_runs_forever code p h env hdiv b f'
+    obtain ⟨f, hf⟩ := C04.inplace_prefix (w := w) code p h env b f'
+    obtain ⟨c, hc⟩ := hdiv f
+    rw [hc, hc'] at hf
+    exact ⟨f, c, c', hc', hc, hf⟩
+
+/-- The same without assuming divergence (restating `C04.inplace_prefix_conv` / `inplace_prefix`):
+cut off anywhere, neither machine has emitted anything the other does not emit. -/
+theorem inplace_output_agrees (b : Nat) :
+    (∀ f, ∃ f', C04.traceOfBf (Bf.run (w := w) f p env) =
+      C04.traceOf (Inplace.run (w := w) code false b f' env)) ∧
+    (∀ f', ∃ f, C04.traceOf (Inplace.run (w := w) code false b f' env) =
+      C04.traceOfBf (Bf.run (w := w) f p env)) :=
+  ⟨C04.inplace_prefix_conv code p h env b, C04.inplace_prefix code p h env b⟩
+
+end Inplace
+
+section IrLevel0
+variable (hw : 0 < w) {src : List Kind} {p : Prog} (hp : Bf.tree src = some p) {blk : Ir.Block w}
+  (hb : Ir.parse (w := w) src = .ok blk) (env : Env)
+include hw hp hb
+
+/-- A canonically divergent program never returns from the IR interpreter (level 0): unlimited mode,
+and limited mode with any budget. -/
+theorem ir_never_returns (hdiv : BfDiverges w p env) :
+    (∀ (f' : Nat) (c : Ir.Cfg w),
+      Ir.run blk false 0 f' env ≠ .done c ∧ Ir.run blk false 0 f' env ≠ .stopped c) ∧
+    (∀ (b f' : Nat) (c : Ir.Cfg w),
+      Ir.run blk true b f' env ≠ .done c ∧ Ir.run blk true b f' env ≠ .stopped c) := by
+  have hunl : ∀ (f' : Nat) (c : Ir.Cfg w),
+      Ir.run blk false 0 f' env ≠ .done c ∧ Ir.run blk false 0 f' env ≠ .stopped c := by
+    intro f' c
+    constructor
+    · intro hr
+      obtain ⟨f, s, hf, _⟩ := (C01.parse_backward hw hp hb env).1 f' c hr
+      obtain ⟨c', hc'⟩ := hdiv f
+      rw [hf] at hc'; cases hc'
+    · intro hr
+      obtain ⟨f, s, hf, _⟩ := (C01.parse_backward hw hp hb env).2 f' c hr
+      obtain ⟨c', hc'⟩ := hdiv f
+      rw [hf] at hc'; cases hc'
+  refine ⟨hunl, ?_⟩
+  apply C07.ir_divergent_never_finished
+  intro g
+  cases hr : Ir.run blk false 0 g env with
+  | outOfFuel c => exact ⟨c, rfl⟩
+  | done c => exact ((hunl g c).1 hr).elim
+  | stopped c => exact ((hunl g c).2 hr).elim
+  | interrupted c => exact (C01.parse_never_interrupted blk g env c hr).elim
+
+/-- Unlimited mode: after any number of steps the IR interpreter is still running. -/
+theorem ir_runs_forever (hdiv : BfDiverges w p env) :
+    ∀ f', ∃ c : Ir.Cfg w, Ir.run blk false 0 f' env = .outOfFuel c := by
+  intro f'
+  have hn := (ir_never_returns hw hp hb env hdiv).1 f'
+  cases hr : Ir.run blk false 0 f' env with
+  | outOfFuel c => exact ⟨c, rfl⟩
+  | done c => exact ((hn c).1 hr).elim
+  | stopped c => exact ((hn c).2 hr).elim
+  | interrupted c => exact (C01.parse_never_interrupted blk f' env c hr).elim
+
+/-- Limited mode: the call comes back within `(b+1)·(size+1)` steps and reports "budget exhausted". -/
+theorem ir_limited_interrupted (hdiv : BfDiverges w p env) :
+    ∀ (b f' : Nat), (b + 1) * (C07.irSizeL blk.insts + 1) ≤ f' →
+      ∃ c : Ir.Cfg w, Ir.run blk true b f' env = .interrupted c := by
+  intro b f' hf
+  have hn := (ir_never_returns hw hp hb env hdiv).2 b f'
+  cases hr : Ir.run blk true b f' env with
+  | outOfFuel c => exact (C07.ir_limited_terminates blk env b f' hf c hr).elim
+  | done c => exact ((hn c).1 hr).elim
+  | stopped c => exact ((hn c).2 hr).elim
+  | interrupted c => exact ⟨c, rfl⟩
+
+/-- A canonically terminating program terminates in the IR interpreter with the same events
+(unlimited mode, and limited mode with any sufficiently large budget). -/
+theorem ir_terminates :
+    (∀ (f : Nat) (s : State w), Bf.run f p env = .done s →
+      ∃ f' c, Ir.run blk false 0 f' env = .done c ∧ c.st.trace = s.trace) ∧
+    (∀ (f : Nat) (s : State w), Bf.run f p env = .stopped s →
+      ∃ f' c, Ir.run blk false 0 f' env = .stopped c ∧ c.st.trace = s.trace) ∧
+    (∀ (f : Nat) (s : State w), Bf.run f p env = .done s →
+      ∃ g, ∀ b, g ≤ b → ∃ f' c, Ir.run blk true b f' env = .done c ∧ c.st.trace = s.trace) := by
+  refine ⟨(C01.parse_forward hw hp hb env).1, (C01.parse_forward hw hp hb env).2, ?_⟩
+  intro f s hr
+  obtain ⟨g, c, hc, ht⟩ := (C01.parse_forward hw hp hb env).1 f s hr
+  refine ⟨g, fun b hgb => ?_⟩
+  obtain ⟨f', c', hc', hst⟩ := C07.ir_limited_enough blk env g c hc b hgb
+  exact ⟨f', c', hc', by rw [hst]; exact ht⟩
+
+/-- Everything a divergent program outputs is output by the IR interpreter, in order and with nothing
+extra. -/
+theorem ir_divergent_output (hdiv : BfDiverges w p env) :
+    (∀ f, ∃ f' c c', Bf.run (w := w) f p env = .outOfFuel c ∧
+      Ir.run blk false 0 f' env = .outOfFuel c' ∧ c'.st.trace = c.st.trace) ∧
+    (∀ f', ∃ f c c', Ir.run blk false 0 f' env = .outOfFuel c' ∧
+      Bf.run (w := w) f p env = .outOfFuel c ∧ c'.st.trace = c.st.trace) := by
+  constructor
+  · intro f
+    obtain ⟨c, hc⟩ := hdiv f
+    obtain ⟨f', hf'⟩ := (C01.parse_prefix hw hp hb env).2 f
+    obtain ⟨c', hc'⟩ := ir_runs_forever hw hp hb env hdiv f'
+    rw [hc, hc'] at hf'
+    exact ⟨f', c, c', hc, hc', hf'⟩
+  · intro f'
+    obtain ⟨c', hc'⟩ := ir_runs_forever hw hp hb env hdiv f'
+    obtain ⟨f, hf⟩ := (C01.parse_prefix hw hp hb env).1 f'
+    obtain ⟨c, hc⟩ := hdiv f
+    rw [hc, hc'] at hf
+    exact ⟨f, c, c', hc', hc, hf⟩
+
+/-- The same without assuming divergence (restating `C01.parse_prefix`). -/
+theorem ir_output_agrees :
+    (∀ f, ∃ f', C01.traceOf (Ir.run blk false 0 f' env) = C01.traceOfBf (Bf.run (w := w) f p env)) ∧
+    (∀ f', ∃ f, C01.traceOf (Ir.run blk false 0 f' env) = C01.traceOfBf (Bf.run (w := w) f p env)) :=
+  ⟨(C01.parse_prefix hw hp hb env).2, (C01.parse_prefix hw hp hb env).1⟩
+
+end IrLevel0
+
+/-! ### 6. Bytecode: a stationary scan on a non-zero cell -/
+
+/-- `scan cond 0` on a non-zero cell: the unlimited machine stays in this very configuration for ever
+(no event, no return); the limited machine is interrupted at once, whatever the budget, with no
+event added. -/
+theorem stationary_scan_diverges {p : Bc.Program w} {c : Bc.Cfg w} {cond : Int}
+    (hi : p.insts[c.pc]? = some (.scan cond 0)) (hz : c.st.rd cond ≠ 0#w) :
+    (∀ f, ∃ c', Bc.runCfg p false f c = .outOfFuel c') ∧
+    (∀ f, Bc.runCfg p false f c = .outOfFuel c) ∧
+    (∀ f, Bc.runCfg p true (f + 1) c = .interrupted { c with budget := 0 }) :=
+  ⟨fun f => ⟨c, C07.bc_stationary_scan_spins hi hz f⟩, C07.bc_stationary_scan_spins hi hz,
+   fun f => C07.bc_run_interrupted (C07.bc_stationary_scan_step hi hz).2 f⟩
+
+/-! ### Examples for 5. and 6. -/
+
+/-- `+[.]` as text -/
+def cPrint : Array Kind := #[.inc, .open, .out, .close]
+example : Bf.tree cPrint.toList = some pPrint := by decide
+example : BfDiverges 8 pPrint env0 := diverges_of_isDiverges (fuel := 20) (by decide)
+-- the in-place interpreter and the IR interpreter are still running after 30 steps, having printed
+example : C04.traceOf (Inplace.run (w := 8) cPrint false 0 6 env0) = [Ev.out 1, Ev.out 1] := by decide
+example : C04.isInterrupted (Inplace.run (w := 8) cPrint true 2 ((2 + 1) * (4 + 2)) env0) = true := by
+  decide
+example : (match Ir.parse (w := 8) cPrint.toList with
+    | .ok blk => C01.traceOf (Ir.run blk false 0 6 env0) | .error _ => []) = [Ev.out 1, Ev.out 1] := by
+  decide
+-- bytecode `+; scan 0 0`
+def bcSpin : Bc.Program 8 :=
+  { temps := 0, minAcc := 0, maxAcc := 0, live := #[],
+    insts := #[.add (.mem 0) (.mem 0) (.imm 1#8), .scan 0 0] }
+example : (match Bc.run bcSpin false 0 50 env0 with | .outOfFuel c => c.pc | _ => 99) = 1 := by decide
+example : (match Bc.run bcSpin true 1000 50 env0 with | .interrupted c => c.budget | _ => 99) = 0 := by
+  decide
+
 end C05
 end Hpbf
 
@@ -160,3 +415,16 @@ end Hpbf
 #print axioms Hpbf.C05.cert_diverges_witness
 #print axioms Hpbf.C05.cert_halts_sound
 #print axioms Hpbf.C05.cert_consistent
+#print axioms Hpbf.C05.inplace_never_returns
+#print axioms Hpbf.C05.inplace_runs_forever
+#print axioms Hpbf.C05.inplace_limited_interrupted
+#print axioms Hpbf.C05.inplace_terminates
+#print axioms Hpbf.C05.inplace_divergent_output
+#print axioms Hpbf.C05.inplace_output_agrees
+#print axioms Hpbf.C05.ir_never_returns
+#print axioms Hpbf.C05.ir_runs_forever
+#print axioms Hpbf.C05.ir_limited_interrupted
+#print axioms Hpbf.C05.ir_terminates
+#print axioms Hpbf.C05.ir_divergent_output
+#print axioms Hpbf.C05.ir_output_agrees
+#print axioms Hpbf.C05.stationary_scan_diverges
